@@ -344,15 +344,16 @@ def check_C13(tier, seed, t0):
 def check_C14(tier, seed, t0):
     cases, maxlen = budget(tier, (30000, 50), (300000, 60))
     names = C.vec_subset(lambda n: n.startswith('vec_') or '_ntr' not in n and '_mo' not in n)
-    parts = [interp_part('C14', 'vector_histories', vec_jobs(names, cases, maxlen), seed, VEC_RULES['C14'], True, crash_class_codes=[47])]
+    multi = [n for n in C.VEC_MULTISTD if n in names]  # the storage layout has separate pre-C++14 code
+    parts = [interp_part('C14', 'vector_histories', vec_jobs(names, cases, maxlen) + vec_jobs(multi, cases, maxlen, stds=('11', '14', '20')), seed, VEC_RULES['C14'], True, crash_class_codes=[47])]
     fsn = [n for n, _ in C.FS_CONFIGS if 'stdvec' not in n and not ('_ntr' in n and ('sv4' in n or 'fcv24' in n)) and not ('_mo' in n and 'sv4' in n)]
     parts.append(interp_part('C14', 'smallset_histories', ss_jobs([n for n, _ in C.SS_CONFIGS if 'flat' in n and '_ntr' not in n and '_mo' not in n], cases, maxlen), seed,
                              'FlatSet-backed SmallSet tapes with RELOCATE; non-trivial = relocation followed by >=3 mutating ops', True, crash_class_codes=[28]))
     parts.append(interp_part('C14', 'flatset_histories', fs_jobs(fsn, cases, maxlen), seed,
                              'FlatSet tapes with RELOCATE; non-trivial = relocation followed by >=3 mutating ops', True, crash_class_codes=[29]))
     parts.append(enum_part('C14', 'static_trait_table', [enum_unit('static_c14', 'targets/static_c14.cpp'), enum_unit('alloc_c06', 'targets/alloc_c06.cpp')], seed, tier,
-                           'converse part: 13 element types (incl. std::string, opted-out, nested pairs) x 5 comparators (std::less, trivially copyable with state, '
-                           'declared relocatable, self-pointing, std::function): the trait of the element/comparator and the claim of vector, SmallVector, '
+                           'converse part: 15 element types (incl. std::string, opted-out, nested pairs, 2-byte non-relocatable) x 7 comparators (std::less, trivially copyable with state, '
+                           'declared relocatable, self-pointing, std::function, empty non-relocatable x2): the trait of the element/comparator and the claim of vector, SmallVector, '
                            'FixedCapacityVector, FlatSet over vector/SmallVector, SmallSet over FlatSet/std::set against values written down per part'))
     parts += fuzz_parts('C14', tier, seed, ('vec', 'fs', 'ss'), True)
     return finish('C14', tier, seed, 'exploration', parts, VEC_RULES['C14'], ASSUME_COMMON, t0)
